@@ -174,7 +174,7 @@ def run_shard(shard, tier, seed):
                     else:
                         probs = judge(out[1], want, text)
                     devs = "+".join(sorted({p[0].split("@")[0] for p, c in zip(ctx.points, ctx.choices) if c != p[2]})) or "default"
-                    rep.case((cfg, image, text, tuple(ctx.choices)), outcome="ok" if not probs else probs[0][0])
+                    rep.case((cfg, image, text, tuple(ctx.choices)), outcome=("ok:" + __import__("re").sub(r"\d+", "n", str(want[2]))[:24]) if not probs else probs[0][0])
                     for clause, detail in probs:
                         rep.violation(f"read/{packet_class(proj, text, conn)}/{cls}/{clause}/{devs}", f"{cfg} image {image}: read({text!r}) {detail} (controller choices {ctx.choices!r})",
                                       {"cfg": list(cfg), "image": image, "requests": [text], "choices": list(ctx.choices)})
